@@ -7,4 +7,4 @@ require (
 	github.com/inspirer/textmapper v0.0.0
 )
 
-replace github.com/inspirer/textmapper => /tmp/mutrepo-mut10078
+replace github.com/inspirer/textmapper => /tmp/mutrepo-mut4310
